@@ -9,31 +9,24 @@ Open Scope Z_scope.
 
 (* ------------------------------------------------------------------ nonzero / argwhere / where(cond) *)
 
-(* canonical, pruned, zero fill: the stored coordinates ARE NumPy's argwhere of the dense array
-   (index tuples of the non-zero elements in row-major order) ... *)
+(* canonical, zero fill — stored explicit zeros allowed: the coordinates kept by `coords[:, data != 0]`
+   ARE NumPy's argwhere of the dense array (index tuples of the non-zero elements in row-major order) ... *)
 Theorem nonzero_rowmajor :
   forall c : coo Z,
-    canonical Z c -> prunedb Z.eqb c = true -> c_fill c = 0 ->
-    c_coords c = np_argwhere (todense c).
+    canonical Z c -> c_fill c = 0 ->
+    nz_coords c = np_argwhere (todense c).
 Proof. exact nonzero_rowmajor_proof. Qed.
 Print Assumptions nonzero_rowmajor.
 
 (* ... hence nonzero, where(cond) and argwhere return what NumPy returns *)
 Theorem nonzero_where_argwhere_spec :
   forall c : coo Z,
-    canonical Z c -> prunedb Z.eqb c = true -> c_fill c = 0 -> c_shape c <> [] ->
+    canonical Z c -> c_fill c = 0 -> c_shape c <> [] ->
     ss_nonzero c = Ok (np_nonzero (todense c)) /\ ss_where1 c = Ok (np_nonzero (todense c))
     /\ ss_argwhere c = Ok (np_argwhere (todense c)).
 Proof. exact ss_nonzero_spec. Qed.
 Print Assumptions nonzero_where_argwhere_spec.
 
-(* The statement without `pruned` is FALSE of the code (a stored zero is reported as non-zero):
-     forall c, canonical Z c -> c_fill c = 0 -> c_coords c = np_argwhere (todense c).
-   Domain clause: nonzero_unpruned. *)
-Theorem nonzero_unpruned_refuted :
-  exists x : coo Z, canonicalb x = true /\ c_fill x = 0 /\ c_coords x <> np_argwhere (todense x).
-Proof. exact nonzero_unpruned_refuted_proof. Qed.
-Print Assumptions nonzero_unpruned_refuted.
 
 (* ------------------------------------------------------------------ unique_values / unique_counts *)
 
@@ -46,30 +39,20 @@ Print Assumptions np_unique_meaning.
 
 Theorem unique_values_spec :
   forall c : coo Z,
-    canonical Z c -> prunedb Z.eqb c = true -> shape_ok (c_shape c) ->
+    canonical Z c -> shape_ok (c_shape c) ->
     ss_unique_values c = np_unique_values (todense c).
 Proof. exact unique_values_spec_proof. Qed.
 Print Assumptions unique_values_spec.
 
-(* values in ascending order with matching counts (full statement: finding D10 was repaired) *)
+(* values in ascending order with matching counts, whether or not the fill value is also stored *)
 Theorem unique_counts_spec :
   forall c : coo Z,
-    canonical Z c -> prunedb Z.eqb c = true -> shape_ok (c_shape c) ->
+    canonical Z c -> shape_ok (c_shape c) ->
     ss_unique_counts c = np_unique_counts_arr (todense c).
 Proof. exact unique_counts_spec_proof. Qed.
 Print Assumptions unique_counts_spec.
 
-(* Without `pruned` both are FALSE of the code (the fill value is listed twice).
-   Domain clauses: unique_values_unpruned, unique_counts_unpruned. *)
-Theorem unique_values_unpruned_refuted :
-  exists x : coo Z, canonicalb x = true /\ ss_unique_values x <> np_unique_values (todense x).
-Proof. exact unique_values_unpruned_refuted_proof. Qed.
-Print Assumptions unique_values_unpruned_refuted.
 
-Theorem unique_counts_unpruned_refuted :
-  exists x : coo Z, canonicalb x = true /\ ss_unique_counts x <> np_unique_counts_arr (todense x).
-Proof. exact unique_counts_unpruned_refuted_proof. Qed.
-Print Assumptions unique_counts_unpruned_refuted.
 
 (* ------------------------------------------------------------------ _sort_coo *)
 
@@ -155,14 +138,14 @@ Print Assumptions sort_nd.
 
 (* ------------------------------------------------------------------ _compute_minmax_args *)
 
-(* For every canonical PRUNED 2-d input (reduce coordinate, index coordinate) with a non-empty
+(* For every canonical 2-d input (reduce coordinate, index coordinate; stored values equal to the fill
+   value allowed: since the Round-7 repair they count as fill values) with a non-empty
    reduced axis, the argument the kernel's result holds for index k is the first position
    attaining the extremum of the dense line k. *)
 Theorem argminmax_first :
   forall (rc ic data : list Z) (N M fill : Z) (maxm : bool),
     length ic = length rc -> 0 < N ->
     canonical Z (mkCOO [N; M] (zip2 rc ic) data fill) ->
-    prunedb Z.eqb (mkCOO [N; M] (zip2 rc ic) data fill) = true ->
     forall k,
       first_best_on maxm (fun i => den (mkCOO [N; M] (zip2 rc ic) data fill) [i; k]) N
                     (arg_result (minmax_args rc ic data N fill maxm) k).
@@ -176,15 +159,6 @@ Theorem first_best_is_np_argbest :
 Proof. exact first_best_np. Qed.
 Print Assumptions first_best_is_np_argbest.
 
-(* Without `pruned` the statement is FALSE of the code: a stored value equal to the fill value
-   before the first unstored position is skipped.  Domain clause: arg_unpruned_tie_with_fill. *)
-Theorem argminmax_first_unpruned_refuted :
-  exists rc ic data N M fill maxm k,
-    length ic = length rc /\ 0 < N /\ canonicalb (mkCOO [N; M] (zip2 rc ic) data fill) = true /\
-    ~ first_best_on maxm (fun i => den (mkCOO [N; M] (zip2 rc ic) data fill) [i; k]) N
-                    (arg_result (minmax_args rc ic data N fill maxm) k).
-Proof. exact argminmax_first_unpruned_refuted_proof. Qed.
-Print Assumptions argminmax_first_unpruned_refuted.
 
 (* ------------------------------------------------------------------ argmax / argmin through the plumbing
    2-d input, first axis (0 or -2), keepdims or not: the result has NumPy's shape and holds, for
@@ -194,20 +168,20 @@ Print Assumptions argminmax_first_unpruned_refuted.
 Theorem argminmax_2d_first_axis :
   forall (maxm kd : bool) (N M axis : Z) (cs : list idx) (data : list Z) (fill : Z),
     (axis = 0 \/ axis = -2) -> 0 < N -> 0 <= M ->
-    canonical Z (mkCOO [N; M] cs data fill) -> prunedb Z.eqb (mkCOO [N; M] cs data fill) = true ->
+    canonical Z (mkCOO [N; M] cs data fill) ->
     exists z, ss_argminmax maxm (mkCOO [N; M] cs data fill) (Some axis) kd = Ok z
       /\ c_shape z = (if kd then [1; M] else [M])
       /\ forall k, den z (arg_emb kd k) = np_argbest maxm (col2 (mkCOO [N; M] cs data fill) N k).
 Proof. exact argminmax_2d_first_axis_proof. Qed.
 Print Assumptions argminmax_2d_first_axis.
 
-(* ANY number of dimensions >= 2, ANY valid axis, keepdims or not (canonical pruned input, non-empty
+(* ANY number of dimensions >= 2, ANY valid axis, keepdims or not (canonical input, non-empty
    reduced axis): with rs = the shape without the reduced axis, the result has shape rs (or rs with a 1
    inserted at the axis when keepdims) and holds at every index o of the other axes np.argmax/np.argmin
    of the dense line through o (ins a i o = o with i inserted at position a) *)
 Theorem argminmax_nd :
   forall (maxm kd : bool) (x : coo Z) (axis : Z) (a : nat),
-    canonical Z x -> prunedb Z.eqb x = true -> shape_ok (c_shape x) -> (2 <= length (c_shape x))%nat ->
+    canonical Z x -> shape_ok (c_shape x) -> (2 <= length (c_shape x))%nat ->
     NpSort.norm_axis (ndimZ x) axis = Some a -> 0 < nth a (c_shape x) 0 ->
     let rs := remove_nth (c_shape x) a in
     exists z, ss_argminmax maxm x (Some axis) kd = Ok z
@@ -222,7 +196,7 @@ Print Assumptions argminmax_nd.
 Theorem argminmax_1d :
   forall (maxm kd : bool) (n axis : Z) (cs : list idx) (data : list Z) (fill : Z),
     (axis = 0 \/ axis = -1) -> 0 < n ->
-    canonical Z (mkCOO [n] cs data fill) -> prunedb Z.eqb (mkCOO [n] cs data fill) = true ->
+    canonical Z (mkCOO [n] cs data fill) ->
     exists z, ss_argminmax maxm (mkCOO [n] cs data fill) (Some axis) kd = Ok z
       /\ c_shape z = (if kd then [1] else []) /\ canonical Z z
       /\ den z (if kd then [0] else []) = np_argbest maxm (flat1 (mkCOO [n] cs data fill) n).
@@ -233,7 +207,7 @@ Print Assumptions argminmax_1d.
    row-major flattened array; shape (1,...,1) with keepdims, 0-d without *)
 Theorem argminmax_axis_none :
   forall (maxm kd : bool) (x : coo Z),
-    canonical Z x -> prunedb Z.eqb x = true -> shape_ok (c_shape x) -> (1 <= length (c_shape x))%nat ->
+    canonical Z x -> shape_ok (c_shape x) -> (1 <= length (c_shape x))%nat ->
     0 < size (c_shape x) ->
     let nd := length (c_shape x) in
     exists z, ss_argminmax maxm x None kd = Ok z
@@ -271,7 +245,7 @@ Print Assumptions sort_dense.
 
 Theorem argminmax_dense :
   forall (maxm kd : bool) (x : coo Z) (axis : option Z),
-    canonical Z x -> prunedb Z.eqb x = true -> shape_ok (c_shape x) -> (1 <= length (c_shape x))%nat ->
+    canonical Z x -> shape_ok (c_shape x) -> (1 <= length (c_shape x))%nat ->
     res_dense (ss_argminmax maxm x axis kd) = np_argbest_axis maxm (todense x) axis kd.
 Proof. exact argminmax_dense_proof. Qed.
 Print Assumptions argminmax_dense.
